@@ -594,6 +594,10 @@ func (s *AbsfsNFS) CreateWithContext(ctx context.Context, dir *NFSNode, name str
 		return nil, fmt.Errorf("create: failed to chmod %s: %w", path, err)
 	}
 
+	// The new file belongs to the identity the caller passed (as MKDIR and
+	// SYMLINK do); a backend that cannot change ownership is tolerated.
+	_ = s.fs.Chown(path, int(attrs.Uid), int(attrs.Gid))
+
 	// Invalidate parent directory caches and negative cache entries in the directory
 	s.attrCache.Invalidate(dir.path)
 	s.attrCache.InvalidateNegativeInDir(dir.path)
